@@ -325,12 +325,18 @@ def record_trace(cfg):
         else:
             sched = SortedSchedulingAlgo(first_come_first_served if cfg["sched"] == "fcfs" else least_laxity_first)
             limit = cfg["pmax"] * ns * 0.75       # the aggregate constraint binds
+        # "reproducible under a fixed random seed": the seed is fixed at the top of the script, before anything is built
+        # (every other configuration), or right before run()
+        seed_first = cfg["seed"] % 2 == 0
+        if seed_first:
+            random.seed(cfg["seed"])
         net = make_network(ns, cfg["v"], cfg["pmax"], cfg["early"], limit)
         evs = make_evs(net, cfg["sess"], lambda i: stn(1 + (i * 7) % ns), cfg["battery"])
         sim = Simulator(net, sched, EventQueue([PluginEvent(ev.arrival, ev) for ev in evs]),
                         datetime(2020, 1, 1), period=cfg["T"], verbose=False)
         net.sim = sim
-        random.seed(cfg["seed"])
+        if not seed_first:
+            random.seed(cfg["seed"])
         try:
             sim.run()
         except Exception as e:  # noqa - the real code failed on a legal scenario
